@@ -58,6 +58,11 @@ pub struct ReqSpec {
     /// repeated names, long, empty and opaque (non-ASCII) values - see `extra_headers`
     #[serde(default)]
     pub hdrs: u8,
+    /// the first server answers 303 See Other with a Location on server `to` (same path and query plus
+    /// `hop=1`); the client follows it (standard redirect policy) with a GET without body. Not combined
+    /// with upgrades.
+    #[serde(default)]
+    pub redirect: Option<u8>,
 }
 
 /// Deterministic extra headers for request (`dir` 0) or response (`dir` 1) number `id`.
@@ -134,11 +139,25 @@ pub const UPGRADE_PROTO: &str = "hdv-echo";
 /// request of the case addresses over HTTP/2 (the pool may serve any request of an origin on its
 /// multiplexed HTTP/2 connection, where the hop-by-hop Upgrade/Connection headers are stripped by
 /// design and no upgrade exists).
+/// The server a redirected request ends up at (None: not redirected).
+pub fn redirect_target(case: &NetCase, spec: &ReqSpec) -> Option<usize> {
+    if spec.upgrade {
+        return None;
+    }
+    // the followed request keeps its HTTP version: the target must speak it
+    let v = request_version(case, spec);
+    spec.redirect.map(|t| t as usize % case.servers.len().clamp(1, 3)).filter(|t| match case.servers[*t] % 3 {
+        0 => v == http::Version::HTTP_11,
+        1 => v == http::Version::HTTP_2,
+        _ => true,
+    })
+}
+
 pub fn is_upgrade(case: &NetCase, spec: &ReqSpec) -> bool {
     let n = case.servers.len();
     spec.upgrade
         && request_version(case, spec) == http::Version::HTTP_11
-        && !case.reqs.iter().any(|r| r.server as usize % n == spec.server as usize % n && request_version(case, r) == http::Version::HTTP_2)
+        && !case.reqs.iter().any(|r| (r.server as usize % n == spec.server as usize % n || redirect_target(case, r) == Some(spec.server as usize % n)) && request_version(case, r) == http::Version::HTTP_2)
 }
 
 pub fn target_of(id: usize, target: u8) -> (String, Option<String>) {
@@ -552,6 +571,8 @@ struct SrvCtx {
     reqs: Vec<ReqSpec>,
     /// per request: an upgrade is expected (see `is_upgrade`)
     upgrades: Vec<bool>,
+    /// per request: where it is redirected to (see `redirect_target`)
+    redirects: Vec<Option<usize>>,
 }
 
 async fn handle(ctx: Arc<SrvCtx>, conn: usize, req: http::Request<hyperdriver::Body>) -> Result<http::Response<ChunkBody>, BoxError> {
@@ -571,17 +592,42 @@ async fn handle(ctx: Arc<SrvCtx>, conn: usize, req: http::Request<hyperdriver::B
     if spec.server as usize % 3 != ctx.server && ctx.reqs.len() > 0 {
         // requests are routed by host; the server index is checked against the script below
     }
-    let want_method = METHODS[spec.method as usize % METHODS.len()];
+    let redirect_to: Option<usize> = ctx.redirects[id];
+    // second hop of a followed 303: GET without body, `hop=1` appended to the query
+    let second_hop = redirect_to.is_some() && parts.uri.query().map(|q| q.ends_with("hop=1")).unwrap_or(false);
+    let want_method = if second_hop { "GET" } else { METHODS[spec.method as usize % METHODS.len()] };
     if parts.method.as_str() != want_method {
         problems.push(format!("method {} != {want_method}", parts.method));
     }
     let (want_path, want_query) = target_of(id, spec.target);
+    let want_query = if second_hop {
+        Some(match want_query {
+            Some(q) => format!("{q}&hop=1"),
+            None => "hop=1".to_string(),
+        })
+    } else {
+        want_query
+    };
     if path != want_path {
         problems.push(format!("path {path} != {want_path}"));
     }
     if parts.uri.query() != want_query.as_deref() {
         problems.push(format!("query {:?} != {want_query:?}", parts.uri.query()));
     }
+    // the request names the origin it was sent to: Host header on HTTP/1, :authority on HTTP/2
+    let want_host = format!("s{}.test", ctx.server);
+    if parts.version == http::Version::HTTP_2 {
+        if parts.uri.authority().map(|a| a.as_str()) != Some(want_host.as_str()) {
+            problems.push(format!("HTTP/2 authority {:?} != {want_host}", parts.uri.authority()));
+        }
+    } else {
+        let hosts: Vec<&[u8]> = parts.headers.get_all(http::header::HOST).iter().map(|v| v.as_bytes()).collect();
+        if hosts != vec![want_host.as_bytes()] {
+            problems.push(format!("Host header {:?} != {want_host}", hosts.iter().map(|h| String::from_utf8_lossy(h).to_string()).collect::<Vec<_>>()));
+        }
+    }
+    let expect_hdrs = if redirect_to.is_some() { 0 } else { spec.hdrs };
+    let expect_body_len = if second_hop { 0 } else { spec.body_len as usize };
     match parts.headers.get("x-id").and_then(|v| v.to_str().ok()).and_then(|v| v.parse::<usize>().ok()) {
         Some(h) if h == id => {}
         other => problems.push(format!("x-id header {other:?} != {id}")),
@@ -589,7 +635,7 @@ async fn handle(ctx: Arc<SrvCtx>, conn: usize, req: http::Request<hyperdriver::B
     if parts.headers.get("x-keep").map(|v| v.as_bytes()) != Some(format!("v{id}").as_bytes()) {
         problems.push("x-keep header lost or altered".to_string());
     }
-    if let Some(p) = extra_headers_problem(&parts.headers, id, spec.hdrs, 0) {
+    if let Some(p) = extra_headers_problem(&parts.headers, id, expect_hdrs, 0) {
         problems.push(p);
     }
     let upgrading = ctx.upgrades[id] && parts.headers.get(http::header::UPGRADE).map(|v| v.as_bytes()) == Some(UPGRADE_PROTO.as_bytes());
@@ -604,8 +650,8 @@ async fn handle(ctx: Arc<SrvCtx>, conn: usize, req: http::Request<hyperdriver::B
         }
         Ok(c) => {
             let b = c.to_bytes();
-            if b.len() != spec.body_len as usize {
-                problems.push(format!("body length {} != {}", b.len(), spec.body_len));
+            if b.len() != expect_body_len {
+                problems.push(format!("body length {} != {expect_body_len}", b.len()));
             } else if let Some(i) = b.iter().enumerate().position(|(i, x)| *x != req_byte(id, i)) {
                 problems.push(format!("body differs at byte {i}"));
             }
@@ -627,6 +673,14 @@ async fn handle(ctx: Arc<SrvCtx>, conn: usize, req: http::Request<hyperdriver::B
     ctx.obs.lock().unwrap().handler_end.push((id, t_end));
     if spec.handler_error {
         return Err("scripted handler error".into());
+    }
+    if let (Some(to), false) = (redirect_to, second_hop) {
+        let (p, q) = target_of(id, spec.target);
+        let location = match q {
+            Some(q) => format!("http://s{to}.test{p}?{q}&hop=1"),
+            None => format!("http://s{to}.test{p}?hop=1"),
+        };
+        return Ok(http::Response::builder().status(303).header(http::header::LOCATION, location).header("x-conn", conn).body(ChunkBody::default()).unwrap());
     }
     if upgrading {
         let on = parts.extensions.remove::<hyper::upgrade::OnUpgrade>();
@@ -788,6 +842,20 @@ fn build_client(case: &NetCase, routes: Arc<Vec<DuplexClient>>, dials: Arc<Atomi
         cfg
     });
     let timeout = case.timeout_ms.map(|t| Duration::from_millis(t as u64));
+    if case.reqs.iter().any(|r| redirect_target(case, r).is_some()) {
+        // the default client follows redirects (tower-http's standard policy)
+        let b = hyperdriver::Client::builder()
+            .with_body::<ChunkBody, hyperdriver::Body>()
+            .with_transport(transport)
+            .with_auto_http()
+            .with_standard_redirect_policy()
+            .with_optional_timeout(timeout);
+        let b = match pool_cfg {
+            Some(cfg) => b.with_pool(cfg),
+            None => b.without_pool(),
+        };
+        return b.build_service();
+    }
     if case.builder_order % 2 == 1 {
         let b = hyperdriver::Client::builder().with_optional_timeout(timeout);
         let b = match pool_cfg {
@@ -885,7 +953,8 @@ fn build_request(case: &NetCase, id: usize, spec: &ReqSpec) -> http::Request<Chu
         // not used for GET/HEAD/CONNECT), so GET bodies always carry an exact size hint
         .body(ChunkBody::new(data, spec.body_chunks as usize, spec.body_gap as u64, spec.exact_hint || spec.method as usize % METHODS.len() == 0))
         .map(|mut r| {
-            for (n, v) in extra_headers(id, spec.hdrs, 0) {
+            // a followed redirect filters credentials and rebuilds the request: no generated headers there
+            for (n, v) in extra_headers(id, if redirect_target(case, spec).is_some() { 0 } else { spec.hdrs }, 0) {
                 r.headers_mut().append(n, http::HeaderValue::from_bytes(&v).unwrap());
             }
             r
@@ -1037,7 +1106,7 @@ pub fn run_net_case(case: &NetCase) -> Result<Obs, String> {
             for s in 0..nsrv {
                 let (client, incoming) = hyperdriver::stream::duplex::pair();
                 routes.push(client);
-                let ctx = Arc::new(SrvCtx { obs: obs.clone(), server: s, reqs: case.reqs.clone(), upgrades: case.reqs.iter().map(|r| is_upgrade(&case, r)).collect() });
+                let ctx = Arc::new(SrvCtx { obs: obs.clone(), server: s, reqs: case.reqs.clone(), upgrades: case.reqs.iter().map(|r| is_upgrade(&case, r)).collect(), redirects: case.reqs.iter().map(|r| redirect_target(&case, r)).collect() });
                 let shutdown = case.shutdown.filter(|(srv, _)| *srv as usize % nsrv == s).map(|(_, ms)| ms as u64);
                 let on_acc = shutdown.and(case.shutdown_on_accept).map(|k| k as usize);
                 let base = hyperdriver::Server::builder::<hyperdriver::Body>().with_incoming(incoming);
@@ -1187,6 +1256,7 @@ pub fn req_strategy(nsrv: u8, allow_cancel: bool, allow_error: bool) -> impl pro
             target,
             upgrade: false,
             hdrs,
+            redirect: None,
         })
 }
 
